@@ -1,1 +1,12 @@
 import BddVerif.Props.C15
+#print axioms B.Props.C15.eval_expr_spec
+#print axioms B.Props.C15.eval_expr_canonical
+#print axioms B.Props.C15.eval_expr_none_iff
+#print axioms B.Props.C15.eval_expression_outcome
+#print axioms B.Props.C15.eval_string_spec
+#print axioms B.Props.C15.to_expr_sem
+#print axioms B.Props.C15.to_expr_roundtrip
+#print axioms B.Props.C15.to_expr_roundtrip_text
+#print axioms B.Props.C15.connective_tables
+#print axioms B.Props.C15.macro_table_ok
+#print axioms B.Props.C15.macro_ops_intended
